@@ -155,6 +155,10 @@ def blocks(tier):
         if len(shape) >= 2 and lat == write_lats(tier)[0]:
             out.append({"space": "write", "tier": tier, "shape": list(shape), "lat": lat, "depth": 1, "layout": "shuffled",
                         "vals": write_vals(tier), "first": list(range(nops))})
+            # ... and on arrays whose memory layout is not C-contiguous (column-major buffer; a transposed view)
+            for layout in ("fortran", "transposed_view"):
+                out.append({"space": "write", "tier": tier, "shape": list(shape), "lat": lat, "depth": 1, "layout": layout,
+                            "vals": write_vals(tier), "first": list(range(nops))})
     return out
 
 
@@ -342,7 +346,14 @@ def run_index(case):
     arrs = [make_axis_array(coords, step), make_axis_array(coords, step, attrs=False)]
     calls = 0
     bad = 0
+    queries = []
     for zone, v in index_queries(coords, step):
+        queries.append((zone, v))
+        queries.append((zone, np.float64(v)))
+        if v == int(v) and abs(v) < 2 ** 53:  # the same number handed over as an integer
+            queries.append((zone, int(v)))
+            queries.append((zone, np.int64(int(v))))
+    for zone, v in queries:
       for arr in arrs:
         for re_ in (True, False):
             obs = call_index(arr, "x", v, re_)
@@ -353,7 +364,7 @@ def run_index(case):
             else:
                 okay, exp = obs == ["ok", m], ["ok", m]
             if not out.expect("index_model", okay, obs, exp, {"fn": "get_coord_index", "zone": zone, "raise_error": re_},
-                              {"value": v, "coords": coords if n <= 10 else None}):
+                              {"value": float(v), "value_type": type(v).__name__, "coords": coords if n <= 10 else None}):
                 bad += 1
     out.transitions = calls
     out.validated = calls
@@ -434,7 +445,12 @@ class WriteSystem:
             # the order of the coordinate mapping is independent of the order of the dimensions, and an array may carry
             # scalar (non-dimension) coordinates, e.g. after isel(channel=0)
             coords = dict([("meta", 7.0)] + list(reversed(list(coords.items()))))
-        return xr.DataArray(np.array(flat, dtype=np.float64).reshape(self.shape), dims=list(DIMS[:self.nd]), coords=coords)
+        values = np.array(flat, dtype=np.float64).reshape(self.shape)
+        if self.layout == "fortran":
+            values = np.asfortranarray(values)
+        elif self.layout == "transposed_view":
+            values = np.ascontiguousarray(values.transpose()).transpose()  # same values, a view with reversed strides
+        return xr.DataArray(values, dims=list(DIMS[:self.nd]), coords=coords)
 
     def initial(self):
         return [100.0 + i for i in range(self.size)]
